@@ -121,11 +121,19 @@ func c06Addr(c *core.Ctx, r *gen.Rand, k addrKind, port int, fam int) {
 			ip[0] |= 1 // keep it a genuine IPv6 address
 		}
 		wire4 = ip
-	default:
+	case 2:
 		ip = make(net.IP, 16)
 		ip[10], ip[11] = 0xff, 0xff
 		copy(ip[12:], r.Bytes(4))
 		wire4 = ip[12:]
+	default:
+		// near misses of the IPv4-mapped prefix ::ffff:0:0/96: genuine IPv6 addresses that differ from it in one byte
+		ip = make(net.IP, 16)
+		ip[10], ip[11] = 0xff, 0xff
+		copy(ip[12:], r.Bytes(4))
+		k := r.Intn(12)
+		ip[k] ^= byte(1 + r.Intn(255))
+		wire4 = ip
 	}
 	typ := k.typ
 	if typ == 0 {
@@ -241,7 +249,7 @@ func c06(c *core.Ctx) {
 	c.Section("addresses", 256, func(i int64, r *gen.Rand) {
 		for lo := 0; lo < 256; lo++ {
 			port := int(i)<<8 | lo
-			for fam := 0; fam < 3; fam++ {
+			for fam := 0; fam < 4; fam++ {
 				for _, k := range kinds {
 					c06Addr(c, r, k, port, fam)
 				}
@@ -249,14 +257,14 @@ func c06(c *core.Ctx) {
 			c.Distinct(uint64(port) | 1<<40)
 		}
 		if i == 3 {
-			c.Sample(map[string]interface{}{"section": "addresses", "ports": "768..1023", "families": "IPv4, IPv6, IPv4-mapped IPv6", "attributes": len(kinds)})
+			c.Sample(map[string]interface{}{"section": "addresses", "ports": "768..1023", "families": "IPv4, IPv6, IPv4-mapped IPv6, one-byte near misses of the mapped prefix", "attributes": len(kinds)})
 		}
 	})
 	c.MarkExhaustive("ports")
 	// (1b) extra random transaction ids / addresses
 	c.Section("addresses-random", c.N(2000, 200000), func(_ int64, r *gen.Rand) {
 		for _, k := range kinds {
-			c06Addr(c, r, k, r.Intn(65536), r.Intn(3))
+			c06Addr(c, r, k, r.Intn(65536), r.Intn(4))
 		}
 		c.Distinct(r.U64())
 	})
